@@ -6,7 +6,7 @@ def run(ctx):
     ctx.clause = ("the ABIXML writer and reader agree on element / attribute names, on every enum<->string table, and "
                   "on which element kinds may omit their size; a hash-style type id is registered as used before it is "
                   "handed out (two types never share an id)")
-    ctx.rules = ["R-VOCAB", "R-ENUMTAB", "R-DEFSZ", "R-IDUNIQ", "R-QNREFRESH", "R-REFSETS"]
+    ctx.rules = ["R-VOCAB", "R-ENUMTAB", "R-DEFSZ", "R-IDUNIQ", "R-QNREFRESH", "R-REFSETS", "R-ATTRWIDTH"]
     P = ctx.program(vr.UNITS)
     vr.check_vocab(ctx, P)
     vr.check_enumtab(ctx, P)
@@ -16,6 +16,8 @@ def run(ctx):
     from rules import qnrefresh_rule
     qnrefresh_rule.check(ctx, ctx.program(qnrefresh_rule.UNITS))
     check_refsets(ctx)
+    from rules import attrwidth_rule
+    attrwidth_rule.check(ctx, ctx.program(["src/abg-reader.cc"]))
     ctx.assume("that attribute *values* (sizes, offsets, ids) are computed and re-interpreted consistently is runtime "
                "behaviour and is not decided")
 
